@@ -55,6 +55,7 @@ type Ctx struct {
 	violations   map[string]*violation
 	order        []string
 	inconclusive []string
+	noVerdict    []string
 	floors       map[string]int64
 	assumptions  []string
 	exhaustive   *bool
@@ -297,10 +298,22 @@ func (c *Ctx) Finish() Result {
 		res.Lines = append(res.Lines, fmt.Sprintf("VIOLATION property=%s replay=%s", c.Prop, path))
 		res.Lines = append(res.Lines, fmt.Sprintf("  key=%s count=%d: %s", v.Key, v.Count, v.What))
 	}
+	// Scenario-level "no verdict" reports (a barrier that was not reached, a connect that failed on a
+	// loaded machine, ...) are tolerated up to two per run: they are listed in the evidence and the
+	// run is judged on everything else. More than that, or a floor that is not met, makes the whole
+	// run inconclusive.
+	hard := []string{}
 	for name, min := range c.floors {
 		if c.counters[name] < min && unknown == 0 {
-			c.inconclusive = append(c.inconclusive, fmt.Sprintf("observed %s=%d, need at least %d", name, c.counters[name], min))
+			hard = append(hard, fmt.Sprintf("observed %s=%d, need at least %d", name, c.counters[name], min))
 		}
+	}
+	soft := c.inconclusive
+	c.noVerdict = append([]string{}, soft...)
+	if len(soft) <= 2 {
+		c.inconclusive = hard
+	} else {
+		c.inconclusive = append(soft, hard...)
 	}
 	switch {
 	case unknown > 0:
@@ -311,6 +324,11 @@ func (c *Ctx) Finish() Result {
 		res.ExitCode = 3
 		for _, r := range c.inconclusive {
 			res.Lines = append(res.Lines, fmt.Sprintf("INCONCLUSIVE property=%s %s", c.Prop, r))
+		}
+	}
+	if res.Verdict != "inconclusive" {
+		for _, r := range c.noVerdict {
+			res.Lines = append(res.Lines, fmt.Sprintf("NO-VERDICT property=%s (tolerated, %d in this run) %s", c.Prop, len(c.noVerdict), r))
 		}
 	}
 	res.Violations = unknown
@@ -364,6 +382,10 @@ func (c *Ctx) writeEvidence(res Result, unknown, knownHit int) {
 	cov["verdict"] = res.Verdict
 	if len(c.inconclusive) > 0 {
 		cov["inconclusive_reasons"] = c.inconclusive
+	}
+	cov["scenarios_without_verdict"] = len(c.noVerdict)
+	if len(c.noVerdict) > 0 {
+		cov["scenarios_without_verdict_reasons"] = c.noVerdict
 	}
 	if knownHit > 0 {
 		cov["known_findings_reproduced"] = knownHit
